@@ -100,7 +100,7 @@ where
         let query_bins = self
             .bins()
             .iter()
-            .filter(|(id, _)| region_bins[**id])
+            .filter(|(id, _)| region_bins.get(**id).unwrap_or(false))
             .map(|(_, bin)| bin)
             .collect();
 
@@ -313,6 +313,24 @@ mod tests {
             reference_sequence.query(MIN_SHIFT, DEPTH, ..=end),
             Err(e) if e.kind() == io::ErrorKind::InvalidInput,
         ));
+
+        Ok(())
+    }
+
+    #[test]
+    fn test_query_with_a_bin_id_that_is_not_in_the_binning_scheme() -> io::Result<()> {
+        let bins = [
+            (0, Bin::new(Vec::new())),
+            (Bin::max_id(DEPTH), Bin::new(Vec::new())),
+            (usize::MAX, Bin::new(Vec::new())),
+        ]
+        .into_iter()
+        .collect();
+
+        let reference_sequence = ReferenceSequence::new(bins, Vec::new(), None);
+
+        let query_bins = reference_sequence.query(MIN_SHIFT, DEPTH, ..)?;
+        assert_eq!(query_bins.len(), 1);
 
         Ok(())
     }
